@@ -1,6 +1,7 @@
 import Mathlib.Tactic.Ring
 import Mathlib.Tactic.Linarith
 import LayerModel.Chain.Slash
+import LayerModel.Lemmas.Unbond
 import LayerModel.Lemmas.DecBounds
 
 /-!
@@ -90,3 +91,51 @@ theorem C11_jail_durations : jailSeconds .warning = some 0 ∧ jailSeconds .mino
 example : share 3333333 5833332 50000 = 28571 ∧ (2 : Int) * 50000 ≤ prec := by decide
 
 end Layer.Slash
+
+
+/-! ## Taking a whole amount out of a delegation at any exchange rate (`sharesForTokens`, model `Layer.Unbond`) -/
+namespace Layer.Unbond
+open Layer
+
+/-- **C11 / C05 (the amount escrowed is the amount recorded, at every exchange rate).**  For every validator (any tokens, any delegator
+shares worth at most half a token per raw share unit — i.e. every validator that exists), every amount and every delegation that holds
+more shares than the rounded-down need, the staking module hands out exactly the requested amount for the shares `sharesForTokens`
+chooses: the backer loses, and the dispute account receives, what the escrow record says. -/
+theorem C11_unbond_exact (v : Val) (available amt : Int) (hT : 0 < v.tokens) (hS : 2 * v.tokens ≤ v.shares) (ha : 0 ≤ amt)
+    (hav : sharesFromTokens v amt < available) :
+    unbondTokens v (sharesForTokens v available amt) = amt := by
+  have hS0 : 0 < v.shares := by omega
+  have hnum : 0 ≤ v.shares * amt := Int.mul_nonneg (by omega) ha
+  -- s = ⌊S·a/T⌋
+  have hs_def : sharesFromTokens v amt = (v.shares * amt) / v.tokens := by
+    unfold sharesFromTokens; exact Int.tdiv_eq_ediv_of_nonneg hnum
+  have hs0 : 0 ≤ sharesFromTokens v amt := by rw [hs_def]; exact Int.ediv_nonneg hnum (by omega)
+  have hlo : sharesFromTokens v amt * v.tokens ≤ v.shares * amt := by rw [hs_def]; exact Int.ediv_mul_le _ (by omega)
+  have hhi : v.shares * amt < (sharesFromTokens v amt + 1) * v.tokens := by
+    rw [hs_def]; exact Int.lt_ediv_add_one_mul_self _ hT
+  have hle := unbond_le v _ amt hs0 (by omega) hS0 ha hlo
+  unfold sharesForTokens
+  simp only []
+  by_cases hb : unbondTokens v (sharesFromTokens v amt) < amt
+  · -- one smallest share unit more
+    have hmin : min (sharesFromTokens v amt + 1) available = sharesFromTokens v amt + 1 := by omega
+    rw [if_pos ⟨hb, hav⟩, hmin]
+    have h1 : v.shares * amt ≤ (sharesFromTokens v amt + 1) * v.tokens := by omega
+    have h2 : (sharesFromTokens v amt + 1) * v.tokens ≤ v.shares * amt + v.tokens := by
+      rw [Int.add_mul]; omega
+    have ge := unbond_ge v _ amt (by omega) (by omega) hS0 ha h1
+    have le := unbond_le_bumped v _ amt (by omega) (by omega) hS0 ha hS h2
+    omega
+  · have : ¬ (unbondTokens v (sharesFromTokens v amt) < amt ∧ sharesFromTokens v amt < available) := fun h => hb h.1
+    rw [if_neg this]
+    omega
+
+/-- **C11 (counterexample before the fix).**  A validator slashed 1 % for downtime (934 070 000 tokens for 943 505 050.50… shares): the
+shares converted for 5 000 045 loya are worth a fraction less, and `Unbond` hands out 5 000 044 — the escrow record, the dispute's
+slash amount and the refunds computed from it are one loya ahead of the dispute account. -/
+theorem C11_unbond_short_counterexample :
+    let v : Val := ⟨934070000, 943505050505050505050505051⟩
+    unbondTokens v (sharesForTokensOld v 5000045) = 5000044 ∧
+    unbondTokens v (sharesForTokens v (943505050505050505050505051) 5000045) = 5000045 := by decide
+
+end Layer.Unbond
